@@ -59,7 +59,14 @@ func c17Ops(si, prfIdx int, thorough bool) []c17Op {
 			if err != nil {
 				return "error"
 			}
-			return engine.Hex(b)
+			// behavioural outcome: the independent peer, holding the same keys, accepts the datagram and reads
+			// the message (which IV / padding octets were used is the implementation's business)
+			ske, ska := ks.DirKeys(initiator)
+			r, uerr := ref.Unprotect(ks.Suite, ske, ska, b, true)
+			if uerr != nil {
+				return "protected datagram refused by the independent peer: " + classifySK(uerr)
+			}
+			return "accepted by peer: " + r.H.Canon() + " [" + ref.CanonPayloads(r.Payloads) + "]"
 		}}
 	}
 	mk := func(k univ.KeySet, mi int, senderI bool, ivseed int) []byte {
@@ -149,7 +156,7 @@ func init() {
 		ID:    "C17",
 		Level: "model_checking",
 		Rule: "explicit-state search over one real IKESAKey object per suite (9 suites; thorough: × 3 PRFs): ops = protect as either role (messages × IV scripts), unprotect genuine messages of both directions (header parsed or not), unprotect tampered ciphertext / tampered ICV / tampered header, truncated, short SK body, garbage, reflected and cross-key messages, derive Child SAs (configurations × nonces) — 15 ops (quick) / 27 ops (thorough); state = canonical dump of the whole SA object graph incl. the hash and cipher internals; successors by replay from a fresh object; search to closure. " +
-			"Oracle on every transition: the op's outcome (protected bytes under the op's IV script, decoded projection, error-ness, child keys) equals its outcome on a freshly built SA with the same keys; the fresh outcomes are validated once against the reference (protected bytes accepted by the independent peer, child keys = RFC). distinct_nontrivial = distinct (state, op) transitions compared",
+			"Oracle on every transition: the op's behavioural outcome (protected datagram accepted and read by the independent peer, decoded projection, error-ness, child keys) equals its outcome on a freshly built SA with the same keys; the fresh outcomes are validated once against the reference (protected bytes accepted by the independent peer, child keys = RFC). distinct_nontrivial = distinct (state, op) transitions compared",
 		Assumptions: []string{"closure of the concrete state space covers histories of every length over the op alphabet, including the 64 of the quantifier"},
 		Run:         runC17,
 		Replay: func(c *engine.Ctx, raw json.RawMessage) {
@@ -250,18 +257,9 @@ func c17ValidateFresh(c *engine.Ctx, ks univ.KeySet, si, prfIdx, oi int, name, o
 	cs := c17Case{Suite: si, PRF: prfIdx, Op: oi, Tier: c.Tier}
 	switch {
 	case len(name) > 7 && name[:7] == "protect":
-		if out == "error" || len(out) < 20 || out[:5] == "panic" {
+		if len(out) < 16 || out[:16] != "accepted by peer" {
 			c.Violate("fresh/protect-fails", name+": "+trs(out), cs)
-			return
 		}
-		b := engine.UnHex(out)
-		for _, dir := range []bool{true, false} {
-			ske, ska := ks.DirKeys(dir)
-			if _, err := ref.Unprotect(ks.Suite, ske, ska, b, true); err == nil {
-				return
-			}
-		}
-		c.Violate("fresh/protected-message-refused-by-peer", name, cs)
 	case len(name) > 17 && name[:18] == "unprotect(genuine ":
 		if out == "error" || (len(out) > 5 && out[:5] == "panic") {
 			c.Violate("fresh/genuine-refused", name+": "+trs(out), cs)
